@@ -547,6 +547,9 @@ func main() {
 		return
 	}
 
+	// 1b. price lattice for the replacement rule (prices up to 2^128)
+	priceLattice(run)
+
 	// 2. random sequential histories
 	nh, maxOps := 800, 60
 	if run.Thorough() {
